@@ -127,7 +127,11 @@ def main(argv=None):
 
         rc = 0
         out = []
-        for core, ent in unknown:
+        for n_unknown, (core, ent) in enumerate(unknown):
+            if n_unknown >= 20:
+                # a change that breaks thousands of distinct cases: the first twenty are replayed and written out
+                rc = 1
+                break
             ex = ent["examples"][0]
             if isinstance(ex["case"], dict):
                 ex["case"] = dict(ex["case"], _core=core)  # lets a replay look for exactly this violation
